@@ -3,17 +3,21 @@
   (written by extract/murmur.go from /repo/murmur.go on every run) into the functions `bmix` and
   `sum128` of murmur.go.
 
-  GENERATED (Generated/Murmur.lean): the constants, `blockLoad` (the unsafe load of one block),
-  `bmixBlock` (the loop body of `bmix`), `bmixLoopFrom` / `bmixLoopStep` (loop header), `fmix64`,
-  `tailMix` (the `switch ... fallthrough` over the tail), `finalize`, `digestSum128` (= `Sum128`),
-  `seedH1` / `seedH2` (initial state), `nblocksOf` (`nblocks := dlen / 16`), `tailStart`
-  (`data[nblocks*d.Size():]`), `getHashWord`.
+  GENERATED (Generated/Murmur.lean): `blockLoad` (the unsafe load of one block), `bmixBlock` (the
+  loop body of `bmix`), `bmixLoopFrom` / `bmixLoopStep` (loop header), `tailMix` (the
+  `switch ... fallthrough` over the tail), `finalize` (with `fmix64` inlined), `digestSum128`
+  (= `Sum128`), `seedH1` / `seedH2` (initial state), `nblocksOf` (the block count passed to `bmix`,
+  `len(data) / 16`), `tailStart` (first byte of the tail, `len(data) / 16 * 16`), `lengthArg` (the
+  length passed to `Sum128`), `getHashWord`.  These names are ROLES chosen by the translator; this
+  file and the proofs never refer to a name that comes from a Go identifier (constants are resolved
+  to their values, helper functions are inlined).
 
   ASSEMBLY (this file, not regenerated): the `for` loop as a fold over the block indices
   `bmixLoopFrom, bmixLoopFrom + bmixLoopStep, ...` (`nblocks - bmixLoopFrom` iterations when the step
-  is 1; the extractor only accepts `for i := <lit>; i < nblocks; i++`), the sequence of the six
-  statements of `sum128` (their shapes are checked by the extractor, which lists them in the comment of
-  `seedH1`), `data[j:]` as `List.drop j`, `len` as `List.length`, `uint(dlen)` as `UInt64.ofNat`.
+  is 1; the extractor only accepts `for i := <const>; i < nblocks; i++`), the data flow of `sum128`
+  (create the digest, `bmix` on the whole input with the block count, `Sum128` on the tail with the
+  length; the extractor recognises every statement of `sum128` and lists them in the comment of
+  `seedH1`), `data[j:]` as `List.drop j`, `len` as `List.length`, `uint(..)` as `UInt64.ofNat`.
   The definitions are put into the namespace `Gostatix.Generated.Murmur` next to the pieces.
 -/
 import Gostatix.Generated.Murmur
@@ -28,10 +32,9 @@ def bmix (p : List UInt8) (nblocks : Nat) (h1 h2 : UInt64) : UInt64 × UInt64 :=
 /-- `sum128(data)`: both words. -/
 def sum128 (data : List UInt8) : UInt64 × UInt64 :=
   let dlen := data.length
-  let nblocks := nblocksOf dlen
-  let s := bmix data nblocks seedH1 seedH2
-  let tail := data.drop (tailStart nblocks)
-  digestSum128 tail (UInt64.ofNat dlen) s.1 s.2
+  let s := bmix data (nblocksOf dlen) seedH1 seedH2
+  let tail := data.drop (tailStart dlen)
+  digestSum128 tail (UInt64.ofNat (lengthArg dlen)) s.1 s.2
 
 /-- `getHash(data)` of base_cuckoo_filter.go. -/
 def getHash (data : List UInt8) : UInt64 := getHashWord (sum128 data)
